@@ -1186,3 +1186,39 @@ Section Summary.
       rewrite (run_mixed_fractions_rejected S d m l p q Hs Hin Hl Hp Hq E) in Hok. discriminate.
   Qed.
 End Summary.
+
+(* ---------------------------------------------------------------------- *)
+(* 13. Entry counts of transformations                                      *)
+(* ---------------------------------------------------------------------- *)
+Section TrArity.
+  Context {T : Type} (S : Scalar T).
+
+  (* which entry counts normalize_transform accepts *)
+  Definition tr_len_ok (n : nat) : bool :=
+    (n <=? 3)%nat || (n =? 6)%nat || (n =? 9)%nat || (n =? 12)%nat || (14 <=? n)%nat.
+
+  Lemma norm_tr_len_exact (t : list T) :
+    is_ok (norm_tr_len S t) =
+    if (List.length t =? 13)%nat then seqb S (last t (s1 S)) (s1 S) else tr_len_ok (List.length t).
+  Proof.
+    unfold norm_tr_len, tr_len_ok.
+    rewrite firstn_length, skipn_length.
+    generalize (seqb S (last t (s1 S)) (s1 S)) as b. generalize (List.length t) as n. intros n b.
+    do 15 (destruct n as [|n]; [try reflexivity; destruct b; reflexivity|]).
+    reflexivity.
+  Qed.
+
+  Theorem run_tr_card_arity_rejected (d : deckm (T:=T)) t :
+    In t (d_trs d) -> List.length (tr_entries t) <> 13%nat ->
+    tr_len_ok (List.length (tr_entries t)) = false ->
+    is_ok (validate S d) = false.
+  Proof.
+    intros Hin Hn Hbad.
+    destruct (validate S d) as [[]|e] eqn:H; [|reflexivity]. exfalso.
+    destruct (validate_ok_stages S _ H) as [lat [trs [sm [imps [cells [_ [Htrs _]]]]]]].
+    pose proof (stage_trs_all_ok S _ _ _ Htrs t Hin) as Hok.
+    rewrite norm_tr_len_exact in Hok.
+    destruct (Nat.eqb_spec (List.length (tr_entries t)) 13); [contradiction|].
+    rewrite Hbad in Hok. discriminate.
+  Qed.
+End TrArity.
